@@ -32,6 +32,7 @@ RULE += (' Also: a manager whose enter calls pop_all() on the stack it is being 
 RULE += (' Also: plain callables returning the awaitable of an asynchronous exit, pushed.')
 RULE += (' Also: enters failing with a BaseException that is not an Exception.')
 RULE += (' Also: managers whose exit is a staticmethod / classmethod.')
+RULE += (' Also: exit-only objects (no matching enter) pushed, also callable ones.')
 ASSUMPTIONS = ["nested async with/with statements of the running interpreter are the reference for routing",
                "__context__ chains are not compared"]
 EXHAUSTIVE_SUBSPACES = 'all 16842 stacks of <= 3 entries x block outcome; all histories of length <= 4 (thorough: 5) over 8 operations'
@@ -45,7 +46,9 @@ KINDS_EXTRA = KINDS + ["dualcm", "dualpush", "scmpush", "acmpush",
                        "wpush", "wpush",
                        # managers whose exit is a staticmethod / classmethod (a class-level resource): ordinary attribute
                        # access binds them correctly, like the with statements do
-                       "staticacm", "classscm"]  # ...push: a manager object pushed, never entered
+                       "staticacm", "classscm",
+                       # objects that offer an EXIT only (a release handle, an already entered resource): push takes them
+                       "xaexit", "xexit", "xexit_callable"]  # ...push: a manager object pushed, never entered
 BEHS = ["falsy", "truthy", "raise", "raise_if_exc"]
 # sampled in addition to the enumerated behaviours: exits that raise a BaseException which is not an Exception
 BEHS_EXTRA = BEHS + ["raise_base", "raise_base_if_exc", "reraise_same", "reraise_same",
@@ -264,6 +267,24 @@ def mk_entry(kind, beh, i, log, susp, choice, shared=None):
             log.append(("sync-exit-used", i))
             return False
 
+    if kind == "xaexit":
+        class AsyncExitOnly:
+            async def __aexit__(self, et, ev, tb):
+                if susp:
+                    await Suspend(("exit", i), susp)
+                return exit_logic(et, ev, tb)
+        return AsyncExitOnly()
+    if kind in ("xexit", "xexit_callable"):
+        class ExitOnly:
+            def __exit__(self, et, ev, tb):
+                return exit_logic(et, ev, tb)
+        if kind == "xexit_callable":
+            class ExitOnlyCallable(ExitOnly):
+                def __call__(self, *args, **kw):
+                    log.append(("called-instead-of-exited", i))
+                    return True
+            return ExitOnlyCallable()
+        return ExitOnly()
     if kind == "staticacm":
         class StaticExitACM(ACM):
             @staticmethod
@@ -353,13 +374,13 @@ def run_stack(case, stats):
             with e as v:
                 l1.append(("value", v))
                 await nest(i + 1)
-        elif k in ("scmpush", "acmpush"):
+        elif k in ("scmpush", "acmpush", "xaexit", "xexit", "xexit_callable"):
             class W:
                 async def __aenter__(self):
                     pass
 
                 async def __aexit__(self, *x, _k=k):
-                    if _k == "scmpush":
+                    if _k in ("scmpush", "xexit", "xexit_callable"):
                         return e.__exit__(*x)
                     return await e.__aexit__(*x)
 
@@ -419,7 +440,7 @@ def run_stack(case, stats):
                 if k in ("acm", "scm", "dualcm", "staticacm", "classscm"):
                     v = await s.enter_context(e)
                     l2.append(("value", v))
-                elif k in ("apush", "wpush", "spush", "dualpush", "scmpush", "acmpush"):
+                elif k in ("apush", "wpush", "spush", "dualpush", "scmpush", "acmpush", "xaexit", "xexit", "xexit_callable"):
                     if s.push(e) is not e:
                         misc.append("push did not return its argument")
                 else:
